@@ -38,6 +38,12 @@ pub fn check(case: &Case, prep: &Prepared, run: &Run) -> (Vec<Violation>, Facts)
     facts.attempts = sim.children.len();
     facts.pool_path = sim.channels > 0;
 
+    if run.result.foreign_thread {
+        // code under test started threads of its own: E1 cannot own their schedule, nothing it observed is trusted
+        out.push(v("E1-inapplicable", "a seam was reached from a thread the simulator does not own".into()));
+        return (out, facts);
+    }
+
     // I6: progress — main returned Ok, no deadlock, no panic anywhere, within the step bound.
     match &run.result.status {
         ExecStatus::Returned => {}
@@ -47,6 +53,11 @@ pub fn check(case: &Case, prep: &Prepared, run: &Run) -> (Vec<Violation>, Facts)
         ExecStatus::StepBound => out.push(v("I6-step-bound", "execution exceeded its step bound".into())),
     }
     let returned = run.result.status == ExecStatus::Returned;
+    for c in &sim.children {
+        if c.killed {
+            out.push(v("I6-prover-killed", format!("anthem killed prover #{} while it was still running ({}); its answer never arrived", c.ordinal, if c.output_blocked { "blocked because nobody was reading its output pipe" } else { "not blocked" })));
+        }
+    }
 
     // I1 / I2: what each child read to EOF is one of the reference problems, none twice.
     let mut used = vec![0usize; reference.len()];
